@@ -89,6 +89,8 @@ class WorkerSeam:
         self.ratio_type = "float"
         self.overrides = {}
         self.call_no = -1
+        self.raise_once = set()
+        self._raised = set()
         self._saved = None
 
     def __enter__(self):
@@ -108,6 +110,13 @@ class WorkerSeam:
                 (k not in country_data) or float(country_data[k]) == float(v) for k, v in seam.overrides.items()
             )
             seam.crossings.append(c)
+            if seam.mode == "stub" and c.iso3 in seam.raise_once and c.iso3 not in seam._raised:
+                # transient worker failure: the first visit of this country raises (solver process died, I/O error
+                # on its result file); fail-stop for the coordinator - unless it chooses to carry on
+                seam._raised.add(c.iso3)
+                c.raised = "RuntimeError"
+                seam.log.add("FAULT", kind="worker_exception", at=len(seam.crossings) - 1, iso3=c.iso3)
+                raise RuntimeError("simulated transient failure of the per-country worker")
             if seam.mode == "stub":
                 r = decode_ratio(seam.ratios.get(c.iso3, seam.default_ratio))
                 c.ratio = r
@@ -146,7 +155,9 @@ class WorkerSeam:
         setattr(world.mods().rmnt.ScenarioRunnerNoTrade, WORKER, self._saved)
         return False
 
-    def begin(self, call_no, mode, ratios=None, default_ratio=0.5, ratio_type="float", overrides=None):
+    def begin(self, call_no, mode, ratios=None, default_ratio=0.5, ratio_type="float", overrides=None, raise_once=()):
+        self.raise_once = set(raise_once or ())
+        self._raised = set()
         self.call_no = call_no
         self.mode = mode
         self.ratios = ratios or {}
@@ -177,7 +188,7 @@ def call_coordinator(runner, seam, log, call_no, call, mode):
     options.update(overrides)
     rs = call.get("ratios") or {}
     seam.begin(call_no, mode, ratios=rs.get("by_code"), default_ratio=rs.get("default", 0.5),
-               ratio_type=call.get("ratio_type", "float"), overrides=overrides)
+               ratio_type=call.get("ratio_type", "float"), overrides=overrides, raise_once=rs.get("raise_once"))
     log.add("CALL_START", call=call_no, mode=mode, selection=core.digest(selection), options=core.digest(options),
             return_results=bool(call.get("return_results", True)))
     o = CallOutcome()
